@@ -4,7 +4,7 @@
    resistance is not assumed — where it is needed the conclusion carries the disjunct
    [Collision H], built constructively from the inputs of the theorem. *)
 From Coq Require Import List ZArith NArith Bool.
-From TM Require Import Common.Hex Common.Sha256 Generated.Consts C10.Model C10.Proofs.
+From TM Require Import Common.Hex Common.Sha256 Generated.Consts C10.Model C10.Proofs C10.Sender.
 Import ListNotations.
 Open Scope Z_scope.
 
@@ -76,6 +76,72 @@ Theorem C10_split_roundtrip :
   forall (data : bytes) (sz : nat), (0 < sz)%nat -> concat (split_data data sz) = data.
 Proof. exact split_roundtrip. Qed.
 Print Assumptions C10_split_roundtrip.
+
+(* ---- the sender's side, and sender to receiver end to end (C10/Sender.v) ---- *)
+
+(* NewPartSetFromData announces exactly as many parts as it cuts: the uint32 expression
+   (len + sz - 1) / sz is ceil(len / sz) as long as the sum stays below 2^32. *)
+Theorem C10_part_count_exact :
+  forall (data : bytes) (sz : nat),
+    (0 < sz)%nat -> Z.of_nat (length data) + Z.of_nat sz - 1 < 4294967296 ->
+    part_count (Z.of_nat (length data)) (Z.of_nat sz) = Z.of_nat (length (split_data data sz)).
+Proof. exact part_count_exact. Qed.
+Print Assumptions C10_part_count_exact.
+
+(* A receiver that does not yet hold position i accepts the sender's i-th part, and the result
+   is the same set with that slot filled; nothing else changes. *)
+Theorem C10_genuine_part_added :
+  forall (H : bytes -> bytes) (cs : list bytes) (ps : partset) (i : nat),
+    PSInv H cs ps -> (i < length cs)%nat -> nth i (ps_parts ps) None = None ->
+    add_part H ps (genuine_part H cs i) = (with_part ps i (genuine_part H cs i), Added).
+Proof. exact genuine_part_added. Qed.
+Print Assumptions C10_genuine_part_added.
+
+(* Any order, any repetitions: once each index was delivered at least once the set is complete
+   and reassembles to the chunks (no collision disjunct: this is the completeness direction). *)
+Theorem C10_all_delivered_completes :
+  forall (H : bytes -> bytes) (cs : list bytes) (order : list nat),
+    Forall (fun i => (i < length cs)%nat) order ->
+    (forall j, (j < length cs)%nat -> In j order) ->
+    let ps := add_parts H (new_partset_from_header (Z.of_nat (length cs)) (root H cs))
+                        (map (genuine_part H cs) order) in
+    is_complete ps = true /\ reassemble ps = concat cs.
+Proof. exact all_delivered_completes. Qed.
+Print Assumptions C10_all_delivered_completes.
+
+(* End to end, soundness: a receiver that knows only the announced header and completes its set
+   from ANY parts holds exactly the sender's bytes. *)
+Theorem C10_end_to_end_sound :
+  forall (H : bytes -> bytes) (hlen : nat), (forall x, length (H x) = hlen) ->
+  forall (data : bytes) (sz : nat) (l : list part),
+    (0 < sz)%nat -> Z.of_nat (length data) + Z.of_nat sz - 1 < 4294967296 ->
+    let s := new_partset_from_data H data sz in
+    let r := add_parts H (new_partset_from_header (ps_total s) (ps_hash s)) l in
+    is_complete r = true -> reassemble r = data \/ Collision H.
+Proof. exact end_to_end_sound. Qed.
+Print Assumptions C10_end_to_end_sound.
+
+(* End to end, completeness: the sender's own parts do complete it, in any order. *)
+Theorem C10_end_to_end_complete :
+  forall (H : bytes -> bytes) (data : bytes) (sz : nat) (order : list nat),
+    (0 < sz)%nat -> Z.of_nat (length data) + Z.of_nat sz - 1 < 4294967296 ->
+    let s := new_partset_from_data H data sz in
+    let n := length (split_data data sz) in
+    Forall (fun i => (i < n)%nat) order -> (forall j, (j < n)%nat -> In j order) ->
+    let r := add_parts H (new_partset_from_header (ps_total s) (ps_hash s))
+                       (map (genuine_part H (split_data data sz)) order) in
+    is_complete r = true /\ reassemble r = data.
+Proof. exact end_to_end_complete. Qed.
+Print Assumptions C10_end_to_end_complete.
+
+(* non-vacuity of the end-to-end pair on real SHA-256: 5 bytes in parts of 2, delivered 2,0,2,1 *)
+Example C10_end_to_end_nonvacuous :
+  let data := [1%N; 2%N; 3%N; 4%N; 5%N] in
+  let s := new_partset_from_data sha256 data 2 in
+  let r := add_parts sha256 (new_partset_from_header (ps_total s) (ps_hash s))
+             (map (genuine_part sha256 (split_data data 2)) [2; 0; 2; 1]%nat) in
+  ps_total s = 3 /\ is_complete r = true /\ reassemble r = data.
+Proof. vm_compute. repeat split; reflexivity. Qed.
 
 (* ---- non-vacuity and a documented limit, on concrete data with the real SHA-256 ---- *)
 
